@@ -928,3 +928,116 @@ Proof.
   induction 1 as [|[a nm] r [Hv _] _ IH]; [constructor|]. cbn [alt_name_lines map fst snd].
   constructor; [now apply name_line_not_cat|exact IH].
 Qed.
+
+(* ================================================================================================ *)
+(* D.3 the categorical header lines                                                                 *)
+(* ================================================================================================ *)
+(* a "#" line that matches none of parse_metadata's prefixes leaves the metadata alone *)
+Lemma parse_metadata_other au m K x :
+  differ (lit "# FILE NAME") K = true -> differ (lit "# TITLE") K = true ->
+  differ (lit "# DESCRIPTION") K = true -> differ (lit "# DATA TYPE") K = true ->
+  differ (lit "# MODIFICATION TYPE") K = true -> differ (lit "# RELATES TO") K = true ->
+  differ (lit "# RELATED FILES") K = true -> differ (lit "# PUBLICATION DATE") K = true ->
+  differ (lit "# MODIFICATION DATE") K = true -> differ (lit "# NUMBER ALTERNATIVES") K = true ->
+  differ (lit "# NUMBER VOTERS") K = true -> differ (lit "# ALTERNATIVE NAME") K = true ->
+  parse_metadata au m (K ++ x) = Ok m.
+Proof.
+  intros. unfold parse_metadata. rewrite !sw_false by assumption. reflexivity.
+Qed.
+
+Definition K_uniq : text := lit "# NUMBER UNIQUE PREFERENCES:".
+Definition K_ncat : text := lit "# NUMBER CATEGORIES:".
+
+Lemma header_line_num_unique au rc i n :
+  header_line au rc i (strip (K_uniq ++ 32%N :: show_N n)) = Ok (set_c_num_unique i n).
+Proof.
+  rewrite strip_kv; [|discriminate|reflexivity|apply strip_show_N]. rewrite spv_show_N.
+  unfold header_line.
+  rewrite (sw_true (lit "# NUMBER UNIQUE PREFERENCES") K_uniq) by reflexivity.
+  change 28 with (List.length K_uniq). unfold drop. rewrite skipn_app_exact.
+  rewrite py_int_sp_show_N. cbn [rmap rbind].
+  rewrite (sw_false (lit "# NUMBER CATEGORIES") K_uniq) by reflexivity.
+  rewrite (sw_false (lit "# CATEGORY NAME") K_uniq) by reflexivity.
+  rewrite parse_metadata_other by reflexivity. cbn [rmap]. now destruct i.
+Qed.
+
+Lemma header_line_num_categories au rc i n :
+  header_line au rc i (strip (K_ncat ++ 32%N :: show_N n)) = Ok (set_c_num_categories i n).
+Proof.
+  rewrite strip_kv; [|discriminate|reflexivity|apply strip_show_N]. rewrite spv_show_N.
+  unfold header_line.
+  rewrite (sw_false (lit "# NUMBER UNIQUE PREFERENCES") K_ncat) by reflexivity. cbn [rbind].
+  rewrite (sw_true (lit "# NUMBER CATEGORIES") K_ncat) by reflexivity.
+  change 20 with (List.length K_ncat). unfold drop. rewrite skipn_app_exact.
+  rewrite py_int_sp_show_N. reflexivity.
+Qed.
+
+Lemma header_line_cat_name au rc i a nm : wf_value nm -> no_break nm = true ->
+  header_line au rc i (strip (name_line cat_name_prefix a nm)) =
+  rmap (fun nm' => set_c_cat_names i (assoc_set N.eqb a nm' (c_cat_names i)))
+       (corrected_name au nm (values (c_cat_names i)) rc).
+Proof.
+  intros Hv Hb. rewrite strip_name_line; [|reflexivity|exact Hv].
+  pose proof (match_name_line cat_name_prefix a nm Hb) as M.
+  unfold header_line.
+  assert (E1 : startswith (lit "# NUMBER UNIQUE PREFERENCES") (name_key cat_name_prefix a ++ spv nm) = false).
+  { unfold name_key. rewrite <- !app_assoc. now apply sw_false. }
+  assert (E2 : startswith (lit "# NUMBER CATEGORIES") (name_key cat_name_prefix a ++ spv nm) = false).
+  { unfold name_key. rewrite <- !app_assoc. now apply sw_false. }
+  assert (E3 : startswith (lit "# CATEGORY NAME") (name_key cat_name_prefix a ++ spv nm) = true).
+  { unfold name_key. rewrite <- !app_assoc. now apply sw_true. }
+  rewrite E1. cbn [rbind]. rewrite E2, E3, M. reflexivity.
+Qed.
+
+(* the two count lines handled by parse_metadata *)
+Definition K_nalt : text := lit "# NUMBER ALTERNATIVES:".
+Definition K_nvot : text := lit "# NUMBER VOTERS:".
+
+Lemma header_line_num_alternatives au rc i n :
+  header_line au rc i (strip (K_nalt ++ 32%N :: show_N n)) = Ok (set_c_meta i (set_num_alternatives (c_meta i) n)).
+Proof.
+  rewrite header_line_meta.
+  - unfold K_nalt. now rewrite parse_line_num_alternatives.
+  - apply kv_not_cat; try reflexivity; try discriminate. apply strip_show_N.
+Qed.
+
+Lemma header_line_num_voters au rc i n :
+  header_line au rc i (strip (K_nvot ++ 32%N :: show_N n)) = Ok (set_c_meta i (set_num_voters (c_meta i) n)).
+Proof.
+  rewrite header_line_meta.
+  - unfold K_nvot. now rewrite parse_line_num_voters.
+  - apply kv_not_cat; try reflexivity; try discriminate. apply strip_show_N.
+Qed.
+
+Lemma fold_header_counts au rc i0 i :
+  fold_header au rc (Ok i0) (count_lines i) =
+  Ok (set_c_num_categories
+        (set_c_num_unique
+           (set_c_meta i0 (set_num_voters (set_num_alternatives (c_meta i0) (num_alternatives (c_meta i)))
+                                          (num_voters (c_meta i))))
+           (c_num_unique i))
+        (c_num_categories i)).
+Proof.
+  unfold fold_header, count_lines. cbn [fold_left rbind].
+  fold K_nalt K_nvot K_uniq K_ncat.
+  rewrite header_line_num_alternatives. cbn [rbind].
+  rewrite header_line_num_voters. cbn [rbind].
+  rewrite header_line_num_unique. cbn [rbind].
+  rewrite header_line_num_categories. reflexivity.
+Qed.
+
+Lemma fold_header_cons au rc r l ls :
+  fold_header au rc r (l :: ls) = fold_header au rc (rbind r (fun i => header_line au rc i (strip l))) ls.
+Proof. reflexivity. Qed.
+
+(* category names, autocorrect off *)
+Lemma fold_header_cat_names rc d : Forall (fun p => wf_field (snd p)) d -> forall i,
+  fold_header false rc (Ok i) (cat_name_lines d) = Ok (set_c_cat_names i (set_all d (c_cat_names i))).
+Proof.
+  induction 1 as [|[a nm] r [Hv Hb] _ IH]; intros i.
+  - cbn. now destruct i.
+  - change (cat_name_lines ((a, nm) :: r)) with (name_line cat_name_prefix a nm :: cat_name_lines r).
+    rewrite fold_header_cons. cbn [rbind]. cbn [snd] in Hv, Hb.
+    rewrite header_line_cat_name by assumption. unfold corrected_name. cbn [andb rmap].
+    rewrite IH. reflexivity.
+Qed.
